@@ -58,12 +58,20 @@ def run_t1():
 def run_t3():
     """regenerate Generated/Core.lean (the element-level core of lib.rs) from the current source;
     returns (ok, message, [(function, why)] that could not be translated)"""
-    rc, out, err = sh([sys.executable, os.path.join(VERIF, "translate", "t3_core.py"),
-                       os.path.join(REPO, "src", "lib.rs"),
-                       os.path.join(LEAN, "CircBuf", "Generated", "Core.lean")])
+    cmd = [sys.executable, os.path.join(VERIF, "translate", "t3_core.py"),
+           os.path.join(REPO, "src", "lib.rs"),
+           os.path.join(LEAN, "CircBuf", "Generated", "Core.lean")]
+    rc, out, err = sh(cmd)
+    note = ""
+    if rc != 0:
+        # the translator itself failed (not: a function is outside its subset — that is handled per function).
+        # `Generated/Core.lean` must never be left over from another tree: regenerate it with every function
+        # taken from the hand model (each is then tied to the source by the correspondence only)
+        note = "T3 failed (" + ((out + err).strip().split("\n")[-1][:200] if (out + err).strip() else "no output") + "); "
+        rc, out, err = sh(cmd, env=dict(os.environ, T3_FORCE_FALLBACK="all"))
     failed = re.findall(r"cannot translate `(\w+)`: (.*)", out + err)
     last = (out + err).strip().split("\n")[-1] if (out + err).strip() else "T3: no output"
-    return rc == 0, last, failed
+    return rc == 0, note + last, failed
 
 
 def lake_build(targets):
